@@ -26,6 +26,16 @@ def _types(deadline, rng, tier):
     return witness_types.search(deadline, rng)
 
 
+def _types_extra(deadline, rng, tier):
+    from . import witness_extra
+    return witness_extra.c07(deadline, rng, tier)
+
+
+def _order_extra(deadline, rng, tier):
+    from . import witness_extra
+    return witness_extra.c11(deadline, rng, tier)
+
+
 def _mut(deadline, rng, tier):
     from . import witness_mut, witness_types
     return witness_mut.search(deadline, rng) or witness_types.search(deadline, rng, only='with the & missing')
@@ -112,7 +122,9 @@ SUITES = {
             ('lint_l1800', _l1800, 'the path from linter to reported lints; typer in between',
              'random placement-valid bodies (depth <= 4): exactly one L1800 per braced branch whose first statement is loop, none otherwise')],
     'C07': [('operators_and_calls', _types, 'the typer (unification, Autocoerce insertion)',
-             'every binary/comparison/unary operator x 15 operand types (identical pairs; 6 random mixed pairs per operator); calls with 0..3 parameters: exact, one argument dropped, one added, one mistyped, & missing')],
+             'every binary/comparison/unary operator x 15 operand types (identical pairs; 6 random mixed pairs per operator); calls with 0..3 parameters: exact, one argument dropped, one added, one mistyped, & missing; literal operands; all casts; sized-array pointers'),
+            ('typing_of_members_and_addresses', _types_extra, 'typer: typing of structure literal members, of assignments through member/element chains, of address depth',
+             '5 single programs, one obligation each: a structure literal member of another type (2), an excess address on an argument, well-typed assignments to an element of an array member and to a member of an array element')],
     'C08': [('mutating_uses', _mut, 'the whole-program consequence; the typer',
              '7 kinds of target x (assignment, address handed to a writing callee in 12 expression/statement contexts); & missing on pointer arguments')],
     'C09': [('literal_range_lints', _literals, 'alpha parser (minus folding, signed/bit split), typer literal typing',
@@ -123,6 +135,8 @@ SUITES = {
              'words of 1..5 integer members (all 9 sizes) x 5 declared sizes, <= 900 cases'),
             ('order_and_cycles', _order, 'scoper cycle detection (found_container*), declaration sorting',
              'random dependency graphs of <= 5 constants or <= 5 structures, acyclic or with one simple cycle of length 1..5, each in 12 (thorough: all) declaration orders'),
+            ('named_length_behind_pointer', _order_extra, 'typer: resolution of named lengths in declaration order',
+             '2 single programs, one obligation each: a structure with a member of type &[N]i32 declared before / after the constant N'),
             ('permutation_invariance', _invariance, 'scoper name resolution (use_struct/use_constant), declaration sorting',
              'modules of 2..6 declarations drawn from 15 templates (constants, structures, functions; shared names across namespaces, missing dependencies, duplicates): every one of 8 (thorough: all) permutations accepted or rejected alike')],
     'C12': [('module_visibility', _modules, 'expand() (import fix-point), path resolution in context',
